@@ -8,6 +8,8 @@
 package webrtc
 
 import (
+	"sync"
+
 	"github.com/pion/interceptor"
 )
 
@@ -19,7 +21,7 @@ func VerifNewTrackRemote(kind RTPCodecType, ssrc SSRC, id, streamID, rid string,
 		kind:       kind,
 		closedChan: make(chan any),
 		received:   make(chan any),
-		api:        NewAPI(),
+		api:        verifAPI(),
 	}
 	close(recv.received)
 	tr := newTrackRemote(kind, ssrc, 0, rid, recv)
@@ -30,6 +32,16 @@ func VerifNewTrackRemote(kind RTPCodecType, ssrc SSRC, id, streamID, rid string,
 	tr.params = RTPParameters{Codecs: []RTPCodecParameters{codec}}
 	recv.tracks = []trackStreams{{track: tr, rtpInterceptor: rtpR, rtcpInterceptor: rtcpR}}
 	return tr, recv
+}
+
+var verifAPIOnce struct {
+	once sync.Once
+	api  *API
+}
+
+func verifAPI() *API {
+	verifAPIOnce.once.Do(func() { verifAPIOnce.api = NewAPI() })
+	return verifAPIOnce.api
 }
 
 // VerifCloseReceiver makes further reads return io.EOF.
